@@ -43,7 +43,17 @@ RULE = ('scope stacks: DictScope root (values = small integers / dyadic rational
         'queries, == against permuted and retyped twins); thorough '
         'adds all stacks of <= 3 layers over 3 names (complete for the 4 roots with a volatile constant, 25 % of the '
         '3-layer stacks for the 2 roots without) with a fixed full history.  Non-trivial = at least two layers and at '
-        'least one layer that is not a DictScope; distinct = distinct canonical JSON.')
+        'least one layer that is not a DictScope; distinct = distinct canonical JSON.  Round 4, deterministic: JointScope '
+        'entries over sub scopes with DIFFERENT roots (each entry as root / MappedScope / RangeScope over MappedScope, '
+        'change_constants touching the root at one lookup position only / two / none, bare and below a MappedScope / '
+        'RangeScope); a loop index named like a (volatile or plain) constant from which a layer BELOW the loop derives a '
+        'parameter, with change_constants of that constant; joint scopes built by the real '
+        'VolatileRepetitionCount.operation; == / != / hash cases (kind eqt) between a scope and a twin (same, permuted, '
+        'DictScope constants / index values as float / TimeType / numpy scalars, exact mapping constants as TimeType / '
+        'numpy.int64: must be equal), a copy with one / all mapping constants turned into floats, a scope of ANOTHER '
+        'class with the same mapping (inner scope, empty MappedScope layer, JointScope of all names, RangeScope with a '
+        'no-op index, DictScope of the denotation), and value / volatile / index / expression / dropped-entry variants; '
+        'plus 60 random stacks x 4 such variants.  DictScope roots come from DictScope(), from_mapping and from_kwargs.')
 TRUSTED = [
     'Coq 8.16.1 kernel + vm_compute (no native_compute)',
     'sympy / qupulse.expressions evaluate + - x /const Min Max over small integers and dyadic rationals exactly; '
@@ -64,16 +74,22 @@ ASSUMPTIONS = [
     'converse is refuted (C13_semantic_dependence_refuted)',
     'the dependency-expression theorem is stated for environments that extend every DictScope root (roots of a joint '
     'scope that disagree on a shared name have no such environment)',
-    'cross-class scope comparisons (e.g. JointScope == DictScope, which raises AttributeError) are not part of the property',
+    'scopes of different classes are unequal (all four __eq__ answer NotImplemented for a foreign class since the '
+    'round-4 repair of JointScope.__eq__); the model says false, the correspondence compares',
     'KeyError and ParameterNotProvidedException are the same observable error kind (JointScope raises a plain KeyError)',
     'hash VALUES are not compared: eq => equal hash is proved for the modelled __hash__ structure under every string / '
     'tuple hash, every number hash that respects == and every order-independent frozenset combiner (CPython\'s is one), '
     'and observed on the implementation in every change / == operation (incl. permuted and retyped twins)',
-    'Expression.__eq__ of the code is structural in sympy (Expression(1) != Expression(1.0)); the model compares '
-    'constants by value; scopes whose mapping constants differ only in number type are never compared',
-    'the explicit heap (shared objects, allocation on change_constants / overwrite) is proved observationally equal to '
-    'the tree model; it is not itself run against the implementation (object identities of returned scopes are not '
-    'observed)',
+    'Expression.__eq__ of the code is structural in sympy (Expression(1) != Expression(1.0)): TEq.v carries the kind '
+    '(exact / Float) of every expression constant and is compared with the code on the TYPED TREE SYMPY HOLDS for each '
+    'expression (sympy\'s canonicalisation of an expression text is trusted, value-checked at three points); the '
+    'histories (Model.v) compare constants by value and never meet mapping constants that differ only in kind',
+    'the explicit heap (shared objects, allocation on change_constants / overwrite) is run in check_corr from the object '
+    'identities of the harness\'s scope builder (admission test lab_okb, proved sufficient: C13_heap_admission); only '
+    'values are observed, never the identity of a scope returned by change_constants (returning self or a copy is the '
+    'implementation\'s choice)',
+    'values(), Mapping.get, VolatileValue.volatile_property and int(VolatileRepetitionCount) are cross-checked on the '
+    'harness side only (a disagreement is reported as a crashed case)',
 ]
 
 NAMES = ['p%d' % i for i in range(8)]
@@ -875,7 +891,7 @@ def r4_history(s, changes):
     gets = [['get', n] for n in dom[:5]] + [['get', 'p7']]
     base = merged_roots(s)
     envs = [sorted(base.items())] + [sorted(dict(base, **dict(c)).items()) for c in changes[:2]]
-    ops = [['as_dict']] + gets + [['vol'], ['volx', envs], ['items']]
+    ops = [['items']] + gets + [['as_dict'], ['vol'], ['volx', envs], ['items']]
     cur = s
     for c in changes:
         ops.append(['change', [list(x) for x in c]])
@@ -1169,6 +1185,15 @@ def fam_eqt(full):
     for s in scopes:
         if eqt_ok(s) and bounded(s):
             out.extend(eqt_variants(s, rng, 'family-eq'))
+    # values whose Python hashes collide (hash(-1) == hash(-2)): unequal scopes with equal hashes
+    D = lambda v: {'t': 'dict', 'vals': [['p0', v], ['p1', '3']], 'vol': ['p0']}
+    Mp = lambda d, c: {'t': 'mapped', 'o': d, 'm': [['p2', ['c', c]], ['p3', ['+', _v('p0'), ['c', c]]]]}
+    Rg = lambda d, v: {'t': 'range', 'i': d, 'n': 'p4', 'v': v}
+    for a, b in ((D('-2'), D('-1')), (D('-2'), D('-1@f')), (Mp(D('-2'), '-2'), Mp(D('-1'), '-2')),
+                 (Mp(D('-2'), '-2'), Mp(D('-2'), '-1')), (Rg(D('3'), '-2'), Rg(D('3'), '-1')),
+                 (Rg(Mp(D('-1'), '5'), '-1'), Rg(Mp(D('-2'), '5'), '-1')),
+                 ({'t': 'joint', 'l': [['p0', D('-2')]]}, {'t': 'joint', 'l': [['p0', D('-1')]]})):
+        out.append({'kind': 'eqt', 'a': a, 'b': b, 'must': False, 'variant': 'hash-collision', 'src': 'family-eq'})
     return out
 
 
@@ -1418,6 +1443,9 @@ def canon(e):
     return c
 
 
+_CTOR_SHIFT = [0]
+
+
 def build(s, memo=None):
     """Python scope objects for a JSON scope; identical JSON sub-scopes inside one joint scope share one object"""
     from qupulse.parameter_scope import DictScope, MappedScope, JointScope
@@ -1432,7 +1460,7 @@ def build(s, memo=None):
         if key in memo:
             return memo[key]
     if t == 'dict':
-        which = (len(s['vals']) + 2 * len(s['vol'])) % 3          # all three constructors of DictScope
+        which = (len(s['vals']) + 2 * len(s['vol']) + _CTOR_SHIFT[0]) % 3          # all three constructors of DictScope
         if which == 0:
             r = DictScope(FrozenDict((k, _py_value(v)) for k, v in s['vals']), frozenset(s['vol']))
         elif which == 1:
@@ -1490,8 +1518,27 @@ def build_via_operation(s):
     from qupulse.program.volatile import VolatileRepetitionCount
     memo = {}
     operands = {n: VolatileRepetitionCount(_py_expr(sub['m'][0][1]), build(sub['o'], memo)) for n, sub in s['l']}
-    result = VolatileRepetitionCount.operation(' + '.join(n for n, _ in s['l']), **operands)
-    return result._scope
+    return VolatileRepetitionCount.operation(' + '.join(n for n, _ in s['l']), **operands)
+
+
+def _volop_readings(s):
+    """on a second, fresh VolatileRepetitionCount built the same way: volatile_property.dependencies must be the scope's
+    volatile parameters restricted to the operand names, int() the rounded (clamped) sum of the entries"""
+    vv = build_via_operation(s)
+    scope = vv._scope
+    try:
+        d = scope.as_dict()
+    except Exception:
+        return                                   # the scope does not denote: nothing to read
+    deps = vv.volatile_property.dependencies
+    vol = scope.get_volatile_parameters()
+    if set(deps) != {n for n, _ in s['l'] if n in vol} or any(deps[n] != vol[n] for n in deps):
+        raise AssertionError('volatile_property.dependencies %r differ from the volatile parameters %r' % (deps, vol))
+    total = sum(vlib.to_fraction(v) for v in d.values())
+    with warnings.catch_warnings():
+        warnings.simplefilter('ignore')
+        if int(vv) != max(0, int(round(total))):
+            raise AssertionError('int(VolatileRepetitionCount) = %r, entries sum to %r' % (int(vv), total))
 
 
 def _err(e):
@@ -1515,8 +1562,8 @@ def _kv(items):
 
 def _items_values(cur):
     """items(), cross-checked against values() (the same multiset of values) and Mapping.get"""
+    vals = sorted(vlib.frac_json(v) for v in cur.values())      # first: before items() fills any cache
     kv = _kv(cur.items())
-    vals = sorted(vlib.frac_json(v) for v in cur.values())
     if vals != sorted(v for _, v in kv):
         raise AssertionError('values() %r is not the multiset of the values of items() %r' % (vals, kv))
     for k, v in kv[:2]:
@@ -1559,7 +1606,12 @@ def _volx(cur, envs):
 
 
 def _run_eqt(case):
-    a, b = build(case['a']), build(case['b'])
+    a = build(case['a'])
+    _CTOR_SHIFT[0] = 1                    # the twin's DictScopes come from another constructor
+    try:
+        b = build(case['b'])
+    finally:
+        _CTOR_SHIFT[0] = 0
     return {'eqt': [bool(a == b), bool(b == a), hash(a) == hash(b), bool(a != b)]}
 
 
@@ -1568,7 +1620,11 @@ def _run_impl(case):
     if case['kind'] == 'eqt':
         return _run_eqt(case)
     cur_json = case['scope']
-    cur = build_via_operation(cur_json) if case.get('via') == 'op' else build(cur_json)
+    if case.get('via') == 'op':
+        _volop_readings(cur_json)
+        cur = build_via_operation(cur_json)._scope
+    else:
+        cur = build(cur_json)
     out = []
     for op in case['ops']:
         k = op[0]
@@ -1899,13 +1955,20 @@ MANIFEST = {
                   '(for every admissible leaf hash / order-independent frozenset combiner, CPython\'s included), to make '
                   'Scope.overwrite set exactly the given names to non-volatile constants, and - on an explicit heap in '
                   'which joint-scope entries are shared objects with one set of memoisation fields and change_constants / '
-                  'overwrite allocate new objects - to answer every history as the cache-free paths do; the model is tied '
+                  'overwrite allocate new objects - to answer every history as the cache-free paths do (also from every '
+                  'labelling that passes the executable admission test used by the check); a second == that carries the '
+                  'number kind of expression constants (sympy-structural Expression equality, scopes of different classes '
+                  'unequal) is proved to refine the value-based one strictly, to be an equivalence, to imply equal kind-aware '
+                  'hashes, and change_constants '
+                  'to yield a scope equal in this sense to the one rebuilt from the changed constants; the model is tied '
                   'to the code by an '
-                  'exact correspondence check of operation histories on one object graph.',
+                  'exact correspondence check of operation histories on one object graph (tree model, cache-free paths '
+                  'and heap model) and of == / != / hash on twin, retyped and cross-class scopes.',
     'level_note': 'Trusted: Coq kernel, sympy evaluation/substitution of + - x / Min Max on small dyadic rationals '
-                  '(divisors +-2^k), frozendict, harness. Dependence is syntactic (over-approximation proved); concrete hash '
-                  'values, sympy-structural Expression equality (number types of constants) and cross-class scope '
-                  'equality are not modelled; the heap model is proved equal to the tree model, not run against the code.',
+                  '(divisors +-2^k), sympy\'s canonical form of an expression text, frozendict, harness. Dependence is '
+                  'syntactic (over-approximation proved); concrete hash values are not modelled (eq => equal hash is proved '
+                  'for every admissible leaf hash / frozenset combiner and observed on the code); object identities of '
+                  'returned scopes are not observed.',
     'technique': 'Coq proof (induction over the scope stack, cache-refinement invariant on tree and heap, substitution '
                  'lemma, permutation argument for hashes) + '
                  'correspondence check',
